@@ -810,16 +810,17 @@ impl<'a> ArxmlParser<'a> {
                         regex: (*regex).to_string(),
                     })?;
                 }
-                // text with regex pattern validation doesn't need unescaping - none of the regexes will allow any of the the escaped chars
-                match std::str::from_utf8(trimmed_input) {
-                    Ok(utf8string) => Ok(CharacterData::String(utf8string.to_owned())),
+                // most of the regexes don't allow any of the escaped chars, but some end in ".*": the text must be unescaped
+                // like any other string, because it is escaped again when it is serialized
+                let text = match std::str::from_utf8(trimmed_input) {
+                    Ok(utf8string) => Cow::from(utf8string),
                     Err(err) => {
                         self.optional_error(ArxmlParserError::Utf8Error { source: err })?;
-                        Ok(CharacterData::String(
-                            String::from_utf8_lossy(trimmed_input).into_owned(),
-                        ))
+                        String::from_utf8_lossy(trimmed_input)
                     }
-                }
+                };
+                let unescaped_text = self.unescape_string(&text)?.into_owned();
+                Ok(CharacterData::String(unescaped_text))
             }
             CharacterDataSpec::String {
                 preserve_whitespace,
